@@ -165,6 +165,45 @@ Section Generic.
     - destruct U as (-> & _ & _). intros g Hg. eapply best_none; eauto.
   Qed.
 
+  (* ---- the sectional resolver: the same choice, made separately among the triggered feedback of each group ---- *)
+  Notation sectional_at := (sectional_at category_priority aliases offset_of).
+
+  Lemma in_group_of tagged g f : In f (group_of tagged g) <-> In (g, f) tagged.
+  Proof.
+    unfold group_of. rewrite in_map_iff. split.
+    - intros ((g', f') & E & Hin). cbn in E. subst f'. apply filter_In in Hin. destruct Hin as [Hin Hg].
+      cbn in Hg. apply Nat.eqb_eq in Hg. now subst g'.
+    - intros Hin. exists (g, f). split; [reflexivity|]. apply filter_In. split; [exact Hin|]. cbn. apply Nat.eqb_refl.
+  Qed.
+
+  Theorem sectional_selects_best_in_the_group tagged calls g r :
+    sectional_at tagged calls g = Ok r ->
+    let s := build_supp calls in
+    match r_used r with
+    | Some u =>
+        exists f l1 l2, f_id f = u /\ In (g, f) tagged /\ group_of tagged g = l1 ++ f :: l2 /\ eligible s f = true
+          /\ (forall h, In (g, h) tagged -> eligible s h = true -> key f <= key h)
+          /\ (forall h, In h l1 -> eligible s h = true -> key f < key h)
+    | None => forall h, In (g, h) tagged -> eligible s h = false
+    end.
+  Proof.
+    unfold C01_Resolver.sectional_at. intros H. pose proof (resolve_selects_best _ _ _ _ H) as B. cbn zeta in B.
+    rewrite app_nil_r in B. destruct (r_used r) as [u|].
+    - destruct B as (f & l1 & l2 & Hu & Hall & He & Hmin & Hfirst).
+      exists f, l1, l2. repeat split; try assumption.
+      + apply in_group_of. rewrite Hall. apply in_or_app. right. now left.
+      + intros h Hh. apply Hmin. now apply in_group_of.
+    - intros h Hh. apply B. now apply in_group_of.
+  Qed.
+
+  (* a feedback of another group never takes part in the choice for g *)
+  Theorem sectional_ignores_other_groups tagged calls g g' f :
+    g' <> g -> sectional_at ((g', f) :: tagged) calls g = sectional_at tagged calls g.
+  Proof.
+    intros Hne. unfold C01_Resolver.sectional_at, group_of. cbn [filter fst].
+    destruct (Nat.eqb_spec g' g); [contradiction|reflexivity].
+  Qed.
+
   Theorem default_when_nothing_eligible act ign calls r :
     resolve act ign calls = Ok r -> r_used r = None ->
     hides_correctness (build_supp calls) = false ->
